@@ -11,14 +11,17 @@ CHECKS = {
          'slice assignment, concatenation (all nine branches), re-padding and copying of canonical buffers of either padding side '
          'return canonical buffers denoting exactly the corresponding list operation on the bit sequence, for all lengths/contents/cut '
          'points (induction over byte lists read as big-endian numbers). Tie to the code: every run executes the implementation, '
-         'the extracted model and a plain bit-string oracle on ~23k (quick) / ~100k (thorough) enumerated cases incl. operand post-states.',
+         'the extracted model and a plain bit-string oracle on ~23k (quick) / ~100k (thorough) enumerated cases incl. operand post-states. '
+         'c05_getitem/add/setitem_objects: the same for Buffer objects in any heap (operands may be one object), with what became of the other objects.',
          'proof by refinement (byte-level model -> bit lists) + model/code correspondence', '7 C05'),
  'C06': ('Theorems c06_* : shifts (both directions, both sides, in place or not), and/or/xor/invert, value(), chunks(n, padding) of the '
          'byte-level model equal the list-level operation (append zeros / drop last bits / map2 / Z_of_bits / n-bit pieces) for all inputs; '
-         'results canonical. Correspondence + oracle on all shifts in [-(N+8), N+8], chunk sizes 1..40, all side combinations.',
+         'results canonical. c06_shift_left/right/and/or/xor_objects: the same for Buffer objects in any heap (in place: the receiver holds the result, no other object changes). '
+         'Correspondence + oracle on all shifts in [-(N+8), N+8], chunk sizes 1..40, all side combinations.',
          'proof by refinement + model/code correspondence', '7 C06'),
  'C13': ('Theorems c13_*: == is equality of bit sequences whatever the sides; equal buffers have equal hash keys; a dict keyed by Buffers '
          '(CPython lookup: hash then ==) behaves as an association list keyed by bit sequences (found through any equal buffer). '
+         'c13_eq/hash_objects: the same for Buffer objects in any heap, comparing or hashing changes no object. '
          'Correspondence + oracle on all pairs up to 5/7 bits x 4 side combinations, random long ones, dict/set probes, Buffer==bytes.',
          'proof by refinement + model/code correspondence', '7 C13'),
  'C16': ('Theorems c16_* about TWO models. (I) BufferHeap.v / SchcHeap.v / ParserHeap.v / ManagerHeap.v / ComputeHeap.v: the Buffer class, and compress / decompress with its compute stage / '
